@@ -277,6 +277,8 @@ pub struct MFunc {
     pub name: Option<String>,
     /// false when the property does not say what the name becomes (converted / replaced)
     pub name_known: bool,
+    /// the ID once designated another body (local converted to an import and/or import replaced)
+    pub rebodied: bool,
 }
 
 #[derive(Clone, Debug)]
@@ -503,7 +505,7 @@ impl Model {
                         kind: MFK::Import { imp: k as u32, ty: *t },
                         deleted: false,
                         name: fname(id),
-                        name_known: true,
+                        name_known: true, rebodied: false,
                     })
                 }
                 ImpKind::Global { ty, mutable } => {
@@ -548,7 +550,7 @@ impl Model {
                 })),
                 deleted: false,
                 name: fname(id),
-                name_known: true,
+                name_known: true, rebodied: false,
             });
         }
         for g in &base.globals {
@@ -906,7 +908,7 @@ impl Model {
                     kind: MFK::Import { imp, ty: *ty },
                     deleted: false,
                     name: None,
-                    name_known: true,
+                    name_known: true, rebodied: false,
                 });
                 Returned::IdImp(id, imp)
             }
@@ -919,7 +921,7 @@ impl Model {
                     kind: MFK::Local(Box::new(Self::new_local(params, results, locals, body, *magic, tag))),
                     deleted: false,
                     name: name.clone(),
-                    name_known: true,
+                    name_known: true, rebodied: false,
                 });
                 Returned::Id(id)
             }
@@ -948,6 +950,7 @@ impl Model {
                 f.kind = MFK::Import { imp, ty: *ty };
                 f.deleted = false;
                 f.name_known = false;
+                f.rebodied = true;
                 Returned::Bool(true)
             }
             Op::ReplaceImport { imp, params, results, locals, body, tag, magic } => {
@@ -957,6 +960,7 @@ impl Model {
                 f.kind = MFK::Local(Box::new(Self::new_local(params, results, locals, body, *magic, tag)));
                 f.deleted = false;
                 f.name_known = false;
+                f.rebodied = true;
                 Returned::None
             }
             Op::SetFnName { id, name } => {
